@@ -13,6 +13,11 @@ SeqsUpTo(n) == IF n = 0 THEN {<<>>}
                ELSE LET S == SeqsUpTo(n - 1) IN S \cup {Append(s, x) : s \in S, x \in 1..NSym}
 KAll2 == SeqsUpTo(2) \ {<<>>}
 KAll3 == SeqsUpTo(3) \ {<<>>}
+OpsAll == {"update", "delete", "get", "prove", "hash", "commit", "reload", "stack", "verify", "corrupt", "copy", "swap"}
+OpsNoCopy == OpsAll \ {"copy", "swap"}
+\* two handles: modifications through one while the other is alive (nodes shared in memory), commit replaces nodes
+OpsCopy == {"update", "delete", "commit", "copy", "swap"}
+KC == {<<1, 1, 1>>, <<1, 1, 2>>, <<1, 2>>, <<2, 1>>}
 V1 == {1}
 V2 == {1, 2}
 CA == {<<1>>, <<1, 2>>, <<3, 3>>}
